@@ -482,6 +482,19 @@ func makeSampleDir(root string, s, nbytes int, seed uint64, lfsrOnly bool, dupNa
 	_ = os.WriteFile(filepath.Join(root, "notes.txt"), []byte("not a sample"), 0o644)
 	_ = os.WriteFile(filepath.Join(root, "sample_bin"), gen.NewRng(1).Bytes(nbytes), 0o644)
 	_ = os.WriteFile(filepath.Join(root, "README.bin.txt"), gen.NewRng(2).Bytes(nbytes), 0o644)
+	if nbytes <= 125000 {
+		// non-sample files LARGER than a sample: an older report left in the directory, and a capture log whose
+		// size happens to be that of another supported scale (the scale is that of the samples, not of the clutter)
+		_ = os.WriteFile(filepath.Join(root, "RandomnessTestReport.csv"), []byte(strings.Repeat("old.bin, 0.500000, 0.500000\n", (3*nbytes+17)/28+1)), 0o644)
+		other := 125000
+		if nbytes == 125000 {
+			other = 12500000 / 4 // larger, not a scale
+		}
+		if s >= 7 {
+			_ = os.MkdirAll(filepath.Join(root, "logs"), 0o755)
+			_ = os.WriteFile(filepath.Join(root, "logs", "capture.log"), gen.NewRng(3).Bytes(other), 0o644)
+		}
+	}
 	return sd
 }
 
